@@ -438,8 +438,12 @@ impl HttpServer {
                             epoll::EventSet::OUT | epoll::EventSet::READ_HANG_UP,
                         )?;
                     }
-                } else if e.event_set().contains(epoll::EventSet::OUT) {
-                    // We have bytes to write on this connection.
+                } else if e.event_set().contains(epoll::EventSet::OUT)
+                    && client_connection.state == ClientConnectionState::AwaitingOutgoing
+                {
+                    // We have bytes to write on this connection. A connection that is already
+                    // `Closed` and only kept until its in-flight requests are answered has
+                    // nothing to write, so a write notification for it is ignored.
                     client_connection.write()?;
                     // If the connection was outgoing before we tried to write the responses
                     // and we don't have any more responses to write, we change the `epoll`
